@@ -630,7 +630,9 @@ Definition req_num (r : req) : Z * Z :=
   | RFindCoord g => (10, if g then 0 else 1)
   end.
 
-(* per call: (result, requests, state code after, [p0; p1; grp] ++ awaited futures) *)
+(* the exception held by _transaction_waiter (what commit re-raises after an abortable error) *)
+Definition werr_num (w : option exn) : Z := match w with Some e => exn_num e | None => 0 end.
+(* per call: (result, requests, state code after, [p0; p1; grp; stored error] ++ awaited futures) *)
 Fixpoint run_obs (s : tstate) (cs : list (call * fault))
   : list ((Z * Z) * list (Z * Z) * Z * list Z) :=
   match cs with
@@ -638,7 +640,7 @@ Fixpoint run_obs (s : tstate) (cs : list (call * fault))
   | (c, f) :: rest =>
       let '(s', r, rq, fu) := api_full s c f in
       (result_num r, map req_num rq, st_code s',
-       [b2z (p0 s'); b2z (p1 s'); b2z (grp s')] ++ fut_num (fst fu) ++ fut_num (snd fu))
+       [b2z (p0 s'); b2z (p1 s'); b2z (grp s'); werr_num (werr s')] ++ fut_num (fst fu) ++ fut_num (snd fu))
         :: run_obs s' rest
   end.
 
